@@ -74,6 +74,7 @@ type Exec struct {
 	notes     []string // uncontracted calls etc.
 	noteSet   map[string]bool
 	safeSeq   map[string]int
+	arrBorn   map[string]int
 	frameSeq  int
 	globals   map[string]*Term
 	rootPre   *State
@@ -108,6 +109,7 @@ func (x *Exec) reset() {
 	x.notes = nil
 	x.noteSet = map[string]bool{}
 	x.safeSeq = map[string]int{}
+	x.arrBorn = map[string]int{}
 	x.globals = map[string]*Term{}
 	x.allocBase = x.D.Const("|alloc0|", SInt)
 }
@@ -261,6 +263,7 @@ type pathEnd struct {
 	st      *State
 	results []Value
 	panicked bool
+	fr      *Frame
 }
 
 // VerifyFunction symbolically executes fn against its contract and returns obligations.
@@ -356,6 +359,10 @@ func (x *Exec) VerifyFunction(fn *ssa.Function, con *FuncContract) (obls []*Obl,
 			return
 		}
 		penv := x.newSpecEnv(fr, end.st, pre)
+		if end.fr != nil {
+			// local variables of the function (their values at this return) may be named in postconditions
+			x.bindFrameNames(penv, end.fr)
+		}
 		for k, v := range env.names {
 			penv.names[k] = v
 		}
@@ -586,6 +593,7 @@ func (x *Exec) loopHeader(fr *Frame, st *State, b, pred *ssa.BasicBlock, li *loo
 			break
 		}
 		fr.vals[phi] = x.freshValue(st, phi.Type(), "loop."+phi.Comment)
+		x.boundValueRefs(st, fr.vals[phi])
 	}
 	x.havocLoopHeap(fr, st, li)
 	env = x.loopEnv(fr, st, b)
@@ -689,6 +697,27 @@ func (x *Exec) havocLoopHeap(fr *Frame, st *State, li *loopInfo) {
 			case *ssa.MapUpdate:
 				all = true
 			case ssa.CallInstruction:
+				if bi, ok := i.Common().Value.(*ssa.Builtin); ok && (bi.Name() == "append" || bi.Name() == "copy") {
+					// append writes a freshly allocated backing array (model: always reallocates);
+					// copy writes the destination's elements, which may be memory that existed at entry
+					if sl, ok := i.Common().Args[0].Type().Underlying().(*types.Slice); ok {
+						if _, isS := sl.Elem().Underlying().(*types.Struct); isS {
+							for _, n := range x.arraysOfStructType(sl.Elem()) {
+								names[n] = true
+								if bi.Name() == "copy" {
+									writesOld[n] = true
+								}
+							}
+						} else {
+							n := elemPrefix(sl.Elem())
+							names[n] = true
+							if bi.Name() == "copy" {
+								writesOld[n] = true
+							}
+						}
+						continue
+					}
+				}
 				if fn := i.Common().StaticCallee(); fn != nil && strings.HasPrefix(funcKey(fn), "math/big.") && !i.Common().IsInvoke() {
 					// big-integer intrinsics write only the abstract value of their receiver
 					names["BigVal"] = true
@@ -976,7 +1005,7 @@ func (x *Exec) runFrom(fr *Frame, st *State, b *ssa.BasicBlock, start int, k fun
 			for _, r := range in.Results {
 				rs = append(rs, x.operand(fr, st, r))
 			}
-			k(&pathEnd{st: st, results: rs})
+			k(&pathEnd{st: st, results: rs, fr: fr})
 			return
 		case *ssa.Panic:
 			x.onPanic(fr, st, "explicit panic", in.Pos())
